@@ -388,3 +388,13 @@ pub fn check_input_blocked(rec: &RunRec, out: &mut Outcome) {
         ));
     }
 }
+
+/// A panic on the input thread ends the process: a violation whatever the property
+/// (used by the properties whose own oracle does not look at the input thread).
+pub fn check_input_panic(rec: &RunRec, out: &mut Outcome) {
+    for e in &rec.events {
+        if let (0, super::kernel::EvK::Panic(msg)) = (e.tid, &e.k) {
+            out.violations.push(Violation::new(&panic_kind("input_thread_panic", msg), msg.clone()));
+        }
+    }
+}
